@@ -256,6 +256,31 @@ CLAIMS = {
                 'waits across threads; lock state of unsuffixed static helpers.',
         'design': 'DESIGN.md section 3, C17',
     },
+    'C10': {
+        'technique': 'static analysis: typestate on the corruption test / disconnect, borrow/return pairing of the '
+                     'loader buffer, handler-table versus dbus_message_get_args type comparison, must-pass-through of '
+                     'the signature check and of the per-iteration read budget',
+        'text': 'Decides the few structural clauses: a corrupt stream disconnects the same transport on every path; '
+                'the loader buffer is returned on every exit of the readers (decode branches exempt only while no '
+                'mechanism has a decode function, re-checked each run); every driver handler is invoked only via the '
+                'table after dbus_message_has_signature(in_args) and reads the declared types; each socket read is '
+                'preceded by the byte-budget test; connection setup re-evaluates the accept gate.',
+        'note': NOT_DECIDED_COMMON + 'Not decided (run-time): no crash for any byte stream, liveness, bounded latency '
+                'for other clients.',
+        'design': 'DESIGN.md section 3, C10',
+    },
+    'C11': {
+        'technique': 'static analysis: linear-expression comparison of the framing lengths used for header load, '
+                     'body copy and deletion, delete-iff-success typestate, sticky-flag who-writes scan, once-only '
+                     'typestate of the post-handshake hand-over',
+        'text': 'Decides that load_message consumes exactly header_len + body_len (as linear expressions, so split '
+                'deletions are fine), only on its success path, with lengths taken from the fixed-header check of the '
+                'same iteration which requires the whole message; corruption is sticky; handshake leftovers are handed '
+                'to the loader once, before framing, and removed only after the copy; a command consumes its line.',
+        'note': NOT_DECIDED_COMMON + 'Not decided: equality of the message sequence across all partitions of the '
+                'stream; the exact point where corruption is declared.',
+        'design': 'DESIGN.md section 3, C11',
+    },
 }
 
 NOT_APPLICABLE = {
@@ -264,7 +289,7 @@ NOT_APPLICABLE = {
            'expression, which would be a frozen-fragment proxy (DESIGN.md section 6)',
 }
 
-PENDING = 'check not built yet in this revision of /verif (planned: see DESIGN.md section 3)'
+PENDING = 'not claimed'
 
 
 def main():
